@@ -1052,3 +1052,25 @@ Proof.
   { rewrite existsb_map. apply existsb_exists. exists y. split; [exact Hy|exact Hint]. }
   rewrite Hex. reflexivity.
 Qed.
+
+(* the bisector passes through no control point of any ring *)
+Theorem row_avoids_vertices_lemma (y : polyT Q) (ri : row_info) :
+  poly_row y = Some ri ->
+  forall r q, In r (poly_rings y) -> In q (line_pts r) -> ~ snd q == r_y ri.
+Proof.
+  intros Hrow. destruct (poly_row_inv y ri Hrow) as [shell [rest [p0 [pr [x0 [x1 [_ [_ [_ [_ Hoff]]]]]]]]]].
+  exact Hoff.
+Qed.
+
+(* the bisector is horizontal at the row ordinate and the intercepts are the sorted distinct
+   abscissae where ring edges meet it *)
+Theorem row_shape_lemma (y : polyT Q) (ri : row_info) :
+  poly_row y = Some ri ->
+  snd (fst (r_bis ri)) = r_y ri /\ snd (snd (r_bis ri)) = r_y ri /\
+  r_xs ri = qsort (raw_intercepts (r_bis ri) (poly_rings y)) /\ ssorted (r_xs ri).
+Proof.
+  intros Hrow. destruct (poly_row_inv y ri Hrow) as [shell [rest [p0 [pr [x0 [x1 [_ [_ [Eb [Exs _]]]]]]]]]].
+  rewrite Eb. cbn [fst snd]. repeat split; try reflexivity.
+  - rewrite <- Eb. exact Exs.
+  - rewrite Exs. apply qsort_ssorted.
+Qed.
